@@ -22,6 +22,9 @@ import (
 //	sep         AddSeparator()
 //	appendnew   t.AppendNewRow()
 //	readd       t.AddRow(<an already attached cell row Ref>) again: the row is listed twice (only generated where asked for)
+//	copycell    add a by-value copy of cell Cap of row Ref (a Cell value, cached text, properties and item pointer
+//	            included) to row To: two cells now share one item, each keeps its own snapshot of the text
+//	newrowother a pending row made by ANOTHER table's NewRowSizedFor (that table is Cap columns wide)
 //	mutate      change the (mutable) item of cell Cap of row Ref behind the cell's back, then call Cell.Update()
 //	            (Items[0] carries the new S/G/E/N); a no-op if that cell's item cannot be mutated
 //	zerorow     t.AddRow(new(tabular.Row))            (a zero-value row: not a separator, holds no cells, refuses Add)
@@ -33,6 +36,7 @@ type Op struct {
 	Items []Item `json:"items,omitempty"`
 	Ref   int    `json:"ref,omitempty"`
 	Cap   int    `json:"cap,omitempty"`
+	To    int    `json:"to,omitempty"`
 }
 
 // Script is a build history plus the way the table was created.
@@ -92,7 +96,7 @@ type Model struct {
 	MaxEver    int     // historical maximum of header/row cell counts (of attached things)
 	Noops      int
 	// Facts for the non-trivial rules.
-	LateAdd, HdrAfterRows, ZeroCellRow, ZeroCellHdr, HasSep, Ragged, SepAdd, ReAdded, Mutated bool
+	LateAdd, HdrAfterRows, ZeroCellRow, ZeroCellHdr, HasSep, Ragged, SepAdd, ReAdded, Mutated, Copied bool
 }
 
 // NCols is the column count by the statement: the largest number of cells in
@@ -199,6 +203,46 @@ func (m *Model) Step(t tabular.Table, op Op) {
 		m.All = append(m.All, r)
 		m.noteAttached(r)
 		m.ZeroCellRow = true
+	case "newrowother":
+		other := tabular.New()
+		w := op.Cap
+		if w < 0 {
+			w = 0
+		}
+		items := make([]interface{}, w)
+		for i := range items {
+			items[i] = "o"
+		}
+		other.AddRowItems(items...)
+		m.All = append(m.All, &MRow{Real: other.NewRowSizedFor()})
+	case "copycell":
+		var src, dst []*MRow
+		for _, r := range m.All {
+			if len(r.Cells) > 0 {
+				src = append(src, r)
+			}
+			if !r.Sep && !r.NilCells {
+				dst = append(dst, r)
+			}
+		}
+		if len(src) == 0 || len(dst) == 0 {
+			m.Noops++
+			return
+		}
+		sr := src[mod(op.Ref, len(src))]
+		j := mod(op.Cap, len(sr.Cells))
+		dr := dst[mod(op.To, len(dst))]
+		cells := sr.Real.Cells()
+		dr.Real.Add(cells[j])                    // by value
+		dr.Cells = append(dr.Cells, sr.Cells[j]) // same item (same Live), own text snapshot
+		if dr.Attached {
+			dr.LateAdds++
+			m.LateAdd = true
+			if len(dr.Cells) > m.MaxEver {
+				m.MaxEver = len(dr.Cells)
+			}
+		}
+		m.Copied = true
 	case "mutate":
 		if len(op.Items) == 0 {
 			m.Noops++
